@@ -43,6 +43,9 @@ sim::Json generate(const std::string& tier, uint64_t seed, uint64_t index) {
   rng.shuffle(opts);
   place_options(rng, sc, opts);
   if (!ampl) sc.ref("argv").push("wantsol=1");
+  // a solution pool now and then: alternative-solution files echo the objective number as the final file does
+  const bool pool = rng.chance(0.12);
+  if (pool) sc.ref("argv").push("sol:stub=@/alt");
   sim::Json info = sim::Json::array();
   for (auto& o : m.objs) {
     sim::Json j = sim::Json::object();
@@ -63,6 +66,7 @@ sim::Json generate(const std::string& tier, uint64_t seed, uint64_t index) {
   sc.set("objno_given", given); sc.set("objno", objno); sc.set("multi", multi);
   sim::Json& s = sc.ref("script");
   s.set("status", 0); s.set("solve_iters", 0); s.set("objvals", multi ? (long)K : 1L);
+  if (pool) { s.set("n_interm", 2); s.set("interm_after_status", 1); }
   if (api) {
     sim::Json ses = sim::Json::object();
     sim::Json lo = sim::Json::array();
@@ -190,6 +194,12 @@ void judge(const sim::Json& sc, const RunRecord& rec, sim::RunResult& r) {
     // echo
     if (sf.ok && !(multi && !given) && !expect.empty() && sf.objno != eff - 1)
       flag("WRONG_OBJNO_ECHO", cfg, "objective " + std::to_string(eff) + " was used, the .sol says 'objno " + std::to_string(sf.objno) + "'");
+    for (auto& kv : rec.files_after) {
+      if (kv.first.compare(0, 3, "alt") != 0 || kv.first.size() < 7 || kv.first.compare(kv.first.size() - 4, 4, ".sol") != 0) continue;
+      oracle::SolFile af = oracle::parse_sol(kv.second);
+      r.stats.set("alt_solution_files_checked", 1);
+      if (af.ok && sf.ok && af.objno != sf.objno) flag("WRONG_OBJNO_ECHO", cfg + ":alt", "the final .sol says 'objno " + std::to_string(sf.objno) + "', the alternative-solution file " + kv.first + " says 'objno " + std::to_string(af.objno) + "'");
+    }
     if (sf.ok && expect.empty() && sf.objno != -1)
       flag("WRONG_OBJNO_ECHO", cfg, "no objective was used, the .sol says 'objno " + std::to_string(sf.objno) + "'");
     if (sit != rec.files_after.end() && !sf.ok) flag("MALFORMED_SOL", cfg, sf.error);
